@@ -21,17 +21,19 @@ def echo_pdata(complete=True):
     return frs[0]
 
 
-def primitives_for(evt, state):
+def primitives_for(evt, state, with_variants=True):
     """(primkind term, builder) list for an event."""
     from pynetdicom2 import pdu, userdataitems
-    def rq():
+    def rq(version=1, subs=None):
         p = pdu.AAssociateRqPDU('CALLED', 'CALLING', [pdu.ApplicationContextItem('1.2.840.10008.3.1.1.1'),
-                                pdu.UserInformationItem([userdataitems.MaximumLengthSubItem(16384)])])
+                                pdu.UserInformationItem(subs or [userdataitems.MaximumLengthSubItem(16384)])],
+                                protocol_version=version)
         p.called_presentation_address = ('127.0.0.1', 104)
         return p
-    def ac():
+    def ac(version=1):
         return pdu.AAssociateAcPDU('CALLED', 'CALLING', [pdu.ApplicationContextItem('1.2.840.10008.3.1.1.1'),
-                                   pdu.UserInformationItem([userdataitems.MaximumLengthSubItem(16384)])])
+                                   pdu.UserInformationItem([userdataitems.MaximumLengthSubItem(16384)])],
+                                   protocol_version=version)
     kinds = {
         'PkRq': rq, 'PkAc': ac, 'PkRj': lambda: pdu.AAssociateRjPDU(1, 1, 3),
         'PkDataComplete': lambda: echo_pdata(True), 'PkDataPartial': lambda: echo_pdata(False),
@@ -46,7 +48,23 @@ def primitives_for(evt, state):
         16: ['(PkAbort 0)', '(PkAbort 2)'], 17: ['PkNone', 'PkDataComplete'], 18: ['PkNone', 'PkRelRq'],
         19: ['PkNone', 'PkAc'],
     }
-    return [(k, kinds[k]) for k in by_event[evt]]
+    # the cell is the same whatever the VALUES in the PDU: further values of one primitive kind (other protocol-version
+    # bit masks - a receiver tests bit 0 only -, other sub-items and orders, other refusal / abort values); rows of
+    # the same cell, told apart by `variant`
+    variants = {
+        'PkRq': [lambda: rq(3), lambda: rq(0x8001), lambda: rq(0xFFFF),
+                 lambda: rq(1, [userdataitems.ImplementationClassUIDSubItem('1.2.3'), userdataitems.MaximumLengthSubItem(0)])],
+        'PkAc': [lambda: ac(3), lambda: ac(0x8001)],
+        'PkRj': [lambda: pdu.AAssociateRjPDU(2, 3, 2), lambda: pdu.AAssociateRjPDU(1, 2, 2)],
+        '(PkAbort 0)': [lambda: pdu.AAbortPDU(0, 5)],
+        '(PkAbort 2)': [lambda: pdu.AAbortPDU(2, 0), lambda: pdu.AAbortPDU(2, 2)],
+    }
+    out = []
+    for k in by_event[evt]:
+        out.append((k, kinds[k]))
+        if with_variants:
+            out.extend((k, b) for b in variants.get(k, []))
+    return out
 
 
 def abstract_sent(raw, prim):
@@ -129,8 +147,10 @@ def tabulate():
     for s in range(1, 14):
         for e in range(1, 20):
             for requestor in (True, False):
-                for pk, build in primitives_for(e, s):
-                    cells.append(observe_cell(s, e, requestor, pk, build))
+                for v, (pk, build) in enumerate(primitives_for(e, s)):
+                    t, h = observe_cell(s, e, requestor, pk, build)
+                    h['variant'] = v
+                    cells.append((t, h))
     return cells
 
 
@@ -171,7 +191,7 @@ def main(tier, seed):
     cov['evaluations'] = len(cells)
     cov['exhaustive'] = True
     cov['distinct_nontrivial'] = len(set((h['state'], h['event'], h['requestor']) for _t, h in cells))
-    cov['rule'] = ('exhaustive: 13 states x 19 events x 2 roles x each applicable primitive kind on the real '
+    cov['rule'] = ('exhaustive: 13 states x 19 events x 2 roles x each applicable primitive kind (and, for the association / abort PDUs, further values: protocol-version bit masks, sub-item orders, refusal and abort codes) on the real '
                    'StateMachine with recording transport/queue/timer; distinct = (state,event,role) triples')
     cov['samples'] = [h for _t, h in cells[100:103]]
     dec.obligations(3, 0)
@@ -200,7 +220,7 @@ def main(tier, seed):
 
 def replay(rec):
     pk = rec['primitive']
-    build = dict(primitives_for(rec['event'], rec['state']))[pk]
+    build = primitives_for(rec['event'], rec['state'])[rec.get('variant', 0)][1]
     _t, h = observe_cell(rec['state'], rec['event'], rec['requestor'], pk, build)
     for k, v in h.items():
         print('%-10s %s' % (k, v))
